@@ -5,6 +5,7 @@ LEVEL = "proof"
 RULE = ('null scripts (every present scaffold whole, forward, uncut; T floor/ceil; sub-texel scaffolds present or absent; last contig >= 1 texel) unpainted and painted x texel sizes x forward/reverse contigs. Non-trivial = distinct (kind, #scaffolds in map, #absent, texel size).')
 TRUSTED = ['correspondence harness props/C08.py + remap_lib.py: real BuildAssembly pipeline vs Lean `remap` on the projection `proj_full`', 'modelled not verified: Python dict/set/sort semantics as in Model/Py.lean; object identity by object ids; PretextView edit-script model (spec side)']
 ASSUMPTIONS = ["each scaffold's last contig is at least one texel long (the generator enforces it)", 'input scaffold names do not look like <hap>_<x>_<n> in the main stream (separate stream for those)']
+LEVEL_NOTE = 'null-map stages in Lean are partial; decided by full-output correspondence + equality oracle; known finding F14 (painted variant)'
 EXPLANATION = 'null-script theorem over the model; tie by full-output correspondence; oracle = equality with the input + zero statistics.'
 PROJ = R.proj_full
 
